@@ -75,4 +75,10 @@ def solve (prm : Params K) (ip : Vec K → Vec K → K) (sqrt : K → K) (eps : 
     (ws : Work K) (f x0 : Vec K) : Except Err (Nat × K × Vec K × Work K) :=
   (run prm ip sqrt eps A P ws f x0).toExcept
 
+/-- one call on a solver object in work-vector state `w`: the observable result and the next state -/
+def call (prm : Params K) (ip : Vec K → Vec K → K) (sqrt : K → K) (eps : K) (w : Work K) (c : Call K) :
+    Obs K × Work K :=
+  let r := run prm ip sqrt eps c.A c.P w c.f c.x0
+  (r.obs, r.ws)
+
 end Amgcl.Solver.CG
